@@ -2,9 +2,17 @@
 
 Lean: Vita/C04/{Model,Lemmas,Props}.lean (find_sound, find_after_insert, load_save_fresh,
 proxy_transparent, seal-wrap theorems) for every history / index function / table size.
-Tie: operation sequences run on the real vita::cache / vita::evaluator_proxy
-(harness/c04_cache.cc, ASan+UBSan) and on the Lean model (c04_driver); answers diffed.
-The harness also carries the property's own oracle (abstract map; direct evaluation).
+Tie 1 (translator): tools/translate_cache.py regenerates Vita/C04/Gen.lean from the clang AST on every
+run — the bodies of hash_t::operator==, cache::index / cache(bits) / find / insert / clear() /
+clear(key), evaluator_proxy::operator() / clear() as terms of the language of Vita/C04/Lang.lean, and
+the effect skeletons (Vita/C04/Sites.lean) of every validation strategy and of search::run.  Props.lean
+proves that the semantics of each generated body IS the model's function (gen_*_is_model), restates
+find_sound / find_after_insert / proxy_transparent about the generated terms, and checks the call-site
+discipline on the generated skeletons (search_run_transparent).
+Tie 2 (differential): operation sequences run on the real vita::cache / vita::evaluator_proxy
+(harness/c04_cache.cc, ASan+UBSan), on the Lean model and on the generated terms (c04_driver);
+answers diffed.  The harness also carries the property's own oracle (abstract map; direct evaluation).
+Call sites: harness/c04_callsite.cc (real dss / holdout_validation / evolution / src_search::run).
 """
 import glob
 import hashlib
@@ -14,6 +22,11 @@ import re
 import struct
 
 from vlib import common as C
+
+import sys
+sys.path.insert(0, os.path.join(C.ROOT, "tools"))
+import translate_cache  # noqa: E402
+from cxx2lean import Refuse  # noqa: E402
 
 M64 = (1 << 64) - 1
 WRAP = 1 << 32
@@ -169,6 +182,42 @@ MALFORMED = ["frob 1", "ins", "ins 99 1 5", "ins 0 3 1 2", "find", "find 0 0", "
              "clrk 77", "jump", "jump 4294967296", "reload 3", "find -1", "peval 99", "pdata", "", "ins 0 1 18446744073709551616"]
 
 
+def regen(chk, broken):
+    """Vita/C04/Gen.lean from the current tree (cached by source hash).  Returns True when Gen.lean
+    now corresponds to the working tree."""
+    gen = os.path.join(C.LEAN, "Vita", "C04", "Gen.lean")
+    stamp = os.path.join(C.BUILD, "c04_gen.stamp")
+    key = C.repo_tree_hash(translate_cache.source_key())
+    os.makedirs(C.BUILD, exist_ok=True)
+
+    def stats(txt):
+        chk.cov["translated"] = re.findall(r"^def (\w+) :", txt, re.M)
+        chk.cov["strategies_translated"] = re.findall(r'^  \("(\w+)",$', txt, re.M)
+        sites = re.findall(r'^  \("([^"]+)", "([^"]+)", "([^"]*)"\)', txt, re.M)
+        chk.cov["call_sites_found"] = len(sites)
+        for _, kind, _ in sites:
+            chk.count("site:" + kind)
+        m = re.search(r"the same term for all (\d+) instantiated", txt)
+        chk.cov["proxy_specialisations"] = int(m.group(1)) if m else 0
+    try:
+        if os.path.exists(stamp) and os.path.exists(gen):
+            old = open(stamp).read().split("\n", 1)
+            if old[0] == key and len(old) > 1 and old[1] == open(gen).read():
+                stats(old[1])
+                chk.cov["gen_cached"] = True
+                return True
+        res, changed = translate_cache.emit(gen)
+        txt = open(gen).read()
+        stats(txt)
+        chk.cov["gen_changed_vs_committed"] = bool(changed)
+        with open(stamp, "w") as f:
+            f.write(key + "\n" + txt)
+        return True
+    except Refuse as e:
+        broken.append("translator tools/translate_cache.py refuses the current sources (Gen.lean left as it was): %s" % e)
+        return False
+
+
 def to_lean(line, cpp_answer):
     """`new`/`pnew` lines carry the slot classes observed on the real table."""
     t = line.split()
@@ -180,7 +229,7 @@ def to_lean(line, cpp_answer):
         ks = t[3:3 + 2 * n]
         body = " ".join("%s %s %s" % (ks[2 * i], ks[2 * i + 1], cls[i]) for i in range(n))
         rest = t[3 + 2 * n:]
-        return "%s %d %s%s" % (t[0], n, body, (" " + " ".join(rest)) if rest else "")
+        return "%s %s %d %s%s" % (t[0], t[1], n, body, (" " + " ".join(rest)) if rest else "")
     return line
 
 
@@ -188,11 +237,17 @@ def strip(ans):
     return ans.split(" | ")[0].strip()
 
 
+def gen_part(model_ans):
+    """the answer of the generated terms: the suffix ` | gen …` when it differs from the model's"""
+    return model_ans.split(" | gen ", 1)[1].strip() if " | gen " in model_ans else strip(model_ans)
+
+
 def run(chk, replay=None):
     rng = C.SplitMix(chk.seed)
     g = Gen(rng)
     broken = []
 
+    gen_ok = regen(chk, broken)
     ok, msg = chk.prove("Vita.C04.Props", ["Vita.C04.Props", "c04_driver"])
     drv_ok = ok or os.path.exists(C.driver_path("c04_driver"))
     if not ok:
@@ -254,6 +309,8 @@ def run(chk, replay=None):
 
     # ---- compare ---------------------------------------------------------
     ndis, first_dis = 0, None
+    ngen, first_gen = 0, None          # generated terms vs code
+    ngm = 0                            # generated terms vs model (what gen_*_is_model exclude)
     bad_seqs = {}
     prefix = {}
     for i in range(min(len(lines), len(cpp))):
@@ -285,11 +342,17 @@ def run(chk, replay=None):
         if lean is not None and i < len(lean):
             la = lean[i]
             same = (strip(a).split()[:1] == la.split()[:1]) if cmd in ("new", "pnew") and a.startswith(cmd) \
-                else strip(a) == la.strip()
+                else strip(a) == strip(la)
             if not same:
                 ndis += 1
                 if first_dis is None:
                     first_dis = (i, si)
+            if " | gen " in la:
+                ngm += 1
+            if cmd in ("find", "peval") and gen_part(la) != strip(a):
+                ngen += 1
+                if first_gen is None:
+                    first_gen = (i, si)
         if i % 4001 == 0:
             chk.sample({"sequence": seqs[si][0], "line": lines[i][:200], "cpp": a, "model": lean[i] if lean else None})
     for name, ls, meta in seqs:
@@ -300,6 +363,8 @@ def run(chk, replay=None):
             chk.count("seq:with-reload")
     chk.cov["sequences"] = len(seqs)
     chk.cov["model_vs_code_disagreements"] = ndis
+    chk.cov["generated_terms_vs_code_disagreements"] = ngen
+    chk.cov["generated_terms_vs_model_disagreements"] = ngm
 
     # ---- a failing input of the property itself -------------------------
     def still_bad(ls):
@@ -337,16 +402,25 @@ def run(chk, replay=None):
         broken_replay = {"lines": ls[:i - start + 1]}
     else:
         broken_replay = {}
+    if lean is not None and first_gen is not None and gen_ok and not bad_seqs:
+        i, si = first_gen
+        broken.append("the terms generated from the clang AST (Gen.lean, semantics Lang.lean) and the real cache disagree "
+                      "(%d lines); first in sequence %s at `%s`: code `%s`, generated terms `%s` – the translator or the "
+                      "semantics of the language no longer follows the code" %
+                      (ngen, seqs[si][0], lines[i][:200], cpp[i][:200], gen_part(lean[i])[:200]))
 
     # ---- call sites: real src_problem + error evaluator + evaluator_proxy + dss / holdout ----------
     SITES = ["dss::init", "dss::shake", "dss::close", "holdout_validation::init", "holdout_validation::shake",
              "holdout_validation::close"]
-    cs_args = [chk.seed, 40 if chk.tier == "quick" else 500, 3 if chk.tier == "quick" else 25]
+    tmpdir = os.path.join(C.BUILD, "c04_tmp")
+    os.makedirs(tmpdir, exist_ok=True)
+    cs_args = [chk.seed, 40 if chk.tier == "quick" else 500, 3 if chk.tier == "quick" else 25,
+               12 if chk.tier == "quick" else 150]
     if replay and "callsite_args" in json.load(open(replay))["replay"]:
         cs_args = json.load(open(replay))["replay"]["callsite_args"]
     if not replay or "callsite_args" in json.load(open(replay))["replay"]:
         cexe = C.build_harness("c04_callsite", "asan")
-        rc, so, se = C.run_harness(cexe, cs_args, timeout=3000)
+        rc, so, se = C.run_harness(cexe, list(cs_args) + ([tmpdir] if len(cs_args) > 3 else []), timeout=3000)
         tr = so.splitlines()
         if rc != 0:
             chk.violation("call-site harness died (rc=%d)\n%s" % (rc, se[-2000:]),
@@ -354,7 +428,7 @@ def run(chk, replay=None):
                           tags={"kind": "crash", "site": "callsite"})
         ml, where = [], []
         for i, l in enumerate(tr):
-            if l.startswith(("scenario", "evo")) or " = " not in l:
+            if l.startswith(("scenario", "evo", "session")) or " = " not in l:
                 continue
             lhs, rhs = l.split(" = ", 1)
             x = to_lean(lhs, rhs) if lhs.startswith("pnew") else lhs
@@ -388,6 +462,24 @@ def run(chk, replay=None):
                                   {"callsite_args": cs_args, "line": l},
                                   tags={"kind": "proxy-differs-from-direct-evaluation", "site": "evolution", "prefilled": "yes"})
                 continue
+            if l.startswith("session"):
+                chk.count("callsite:sessions")
+                m = re.search(r"strategy=(\w+).* checked=(\d+) wrong=(\d+)", l)
+                if m:
+                    chk.count("callsite:session:" + m.group(1))
+                    chk.count("callsite:session-comparisons", int(m.group(2)))
+                    for _ in range(int(m.group(2))):
+                        chk.seen(("session", cs_args[0], l.split()[1], _))
+                if " | BAD " in l:
+                    strat = m.group(1) if m else "?"
+                    chk.violation("two real src_search::run sessions sharing a serialization file (session 1: as-is "
+                                  "validation, fills and saves the cache; session 2: %s, loads it): the fitness "
+                                  "search::run reports for the best individual differs from the evaluator's on the "
+                                  "training set of that moment: %s" % (strat, l),
+                                  {"callsite_args": cs_args, "line": l},
+                                  tags={"kind": "proxy-differs-from-direct-evaluation",
+                                        "site": "src_search::run/" + strat, "prefilled": "yes"})
+                continue
             if " = " not in l:
                 continue
             lhs, rhs = l.split(" = ", 1)
@@ -396,6 +488,13 @@ def run(chk, replay=None):
                 last_site = (SITES[int(t[1])], int(t[2]))
                 chk.count("callsite:step:" + SITES[int(t[1])])
             mod = model_at.get(i)
+            if mod is not None and " | gen " in mod:
+                chk.cov["generated_terms_vs_model_disagreements"] = chk.cov.get("generated_terms_vs_model_disagreements", 0) + 1
+                if t[0] == "pevalv" and (gen_part(mod).split()[1:2] or ["?"])[0] not in rhs.split(" | ")[0].split(",") \
+                        and " | BAD " not in rhs and gen_ok:
+                    broken.append("call-site scenario: generated terms and real proxy disagree at `%s`: code %s, generated %s"
+                                  % (lhs, rhs, gen_part(mod)))
+                mod = strip(mod)
             if t[0] == "pevalv":
                 chk.seen(("cs", cs_args[0], scen, i))
                 vs = rhs.split(" | ")[0].split(",")
@@ -445,12 +544,18 @@ def run(chk, replay=None):
         chk.notes += broken
     return chk.finish(
         level="proof",
-        checker_cmd="lake build Vita.C04.Props c04_driver && lake env lean <#print axioms for every theorem>",
+        checker_cmd="python3 tools/translate_cache.py > lean/Vita/C04/Gen.lean && lake build Vita.C04.Props c04_driver && "
+                    "lake env lean <#print axioms for every theorem>",
         rule="operation sequences (store/lookup/clear/clear(key)/save+load-into-fresh, header-only loads that put the "
              "seal next to 2^32, proxy evaluations/data changes/clears) over engineered key pools on tables of 1..8 "
              "bits (proxy 7..9); one evaluation = one observation (lookup, proxy call or round trip); distinct = "
              "distinct operation prefixes leading to it; every observation is judged by the harness's oracle and "
              "compared with the Lean model",
-        trusted=["Lean 4.33 kernel", "hand-written model Vita/C04/Model.lean of cache.cc / evaluator_proxy.tcc "
-                 "(validated by the differential run)", "harness/c04_cache.cc + g++ 12 ASan/UBSan",
+        trusted=["Lean 4.33 kernel", "tools/translate_cache.py + cxx2lean.py (clang-14 JSON AST -> terms of Vita/C04/Lang.lean "
+                 "and effect skeletons of Vita/C04/Sites.lean; syntax only, refuses unknown shapes; its output is also "
+                 "run against the real cache on every check)",
+                 "the semantics of the statement language (Vita/C04/Lang.lean) and the classification of call-site "
+                 "atoms (change / clear / eval / load) in the translator",
+                 "hand-written model of cache::save / load (Vita/C04/Model.lean; validated by the differential run)",
+                 "harness/c04_cache.cc, harness/c04_callsite.cc + g++ 12 ASan/UBSan",
                  "text round trip of finite doubles and 64-bit integers through iostreams (C11)"])
